@@ -77,10 +77,12 @@ def _symbols(v, out):
         for k in v:
             if k == A.ONE:
                 continue
-            for tok in re.findall(r"[A-Za-z_$][A-Za-z0-9_.$]*", str(k)):
+            for tok in re.findall(r"[A-Za-z_$@][A-Za-z0-9_.$@]*", str(k)):
                 out.add(tok)
         return
-    if v[0] in ("tup",):
+    if v[0] == "obj":
+        out.add(v[1])
+    elif v[0] in ("tup",):
         for x in v[1]:
             _symbols(x, out)
     elif v[0] in ("struct", "match"):
@@ -98,7 +100,7 @@ FUNCS = {"abs", "max", "min", "floor", "ceil", "ite", "lt", "le", "eq", "ne", "m
 
 def _subst(x, ren):
     if isinstance(x, str):
-        return re.sub(r"[A-Za-z_$][A-Za-z0-9_.$]*", lambda m: ren.get(m.group(0), m.group(0)), x)
+        return re.sub(r"[A-Za-z_$@][A-Za-z0-9_.$@]*", lambda m: ren.get(m.group(0), m.group(0)), x)
     if isinstance(x, list):
         return [_subst(y, ren) for y in x]
     if isinstance(x, dict):
@@ -176,6 +178,8 @@ def _case_value(prog, ent, case_name, case):
             v = case["args"].get(str(k))
             if isinstance(v, bool):
                 argv.append(("bool", v))
+            elif isinstance(v, str) and v.startswith("str:"):
+                argv.append(("str", v[4:]))
             elif isinstance(v, str):
                 argv.append(("obj", v))
             else:
@@ -183,6 +187,8 @@ def _case_value(prog, ent, case_name, case):
     summ = ev.summary(ent["function"], args=argv)
     if "ret" in ent:
         r = summ["ret"] if summ else None
+        if ent["ret"] == "all":
+            return r
         if r is None or A.is_form(r) or r[0] != "tup":
             return None
         return ("tup", [r[1][i] if i < len(r[1]) else None for i in ent["ret"]])
